@@ -18,7 +18,7 @@ CAN = {"bool": "bool", "int8": "int8", "int32": "int32", "int64": "int64", "uint
        "complex64": "complex64", "complex128": "complex128", "clongdouble": "complex256"}
 REQ0 = {"Signal": None, "RadioSignal": None, "IntensitySignal": "float64", "FullStokesSignal": "float64",
         "BasebandSignal": "complex128", "DualPolarizationSignal": "complex128"}
-QK = ["pos", "zero", "neg", "nonScalar", "wrongUnit", "notQuantity"]
+QK = ["pos", "zero", "neg", "nonScalar", "nonScalar1", "nonScalar11", "wrongUnit", "notQuantity"]
 OPS = ["slice", "slice2", "fslice", "fast_len", "time_shift", "to_intensity", "to_stokes", "to_circular", "to_linear",
        "stokesI", "concat", "incoh", "coh", "freq_shift", "stft", "ufunc", "snippet", "like", "dask"]
 
@@ -90,7 +90,8 @@ class Prop(PropBase):
         u, Time, np = self.u, self.Time, self.np
         if what in ("rate", "cf", "bw"):
             return {"pos": 2.5 * u.kHz if what != "cf" else 400 * u.MHz, "zero": 0 * u.Hz, "neg": -3 * u.MHz,
-                    "nonScalar": np.array([1.0, 2.0]) * u.kHz, "wrongUnit": 1 * u.s, "notQuantity": 5.0}[kind]
+                    "nonScalar": np.array([1.0, 2.0]) * u.kHz, "nonScalar1": np.array([4.0]) * u.MHz,
+                    "nonScalar11": np.array([[4.0]]) * u.MHz, "wrongUnit": 1 * u.s, "notQuantity": 5.0}[kind]
         if what == "start":
             return {"none": None, "scalarTime": Time("2020-02-03T04:05:06.789"), "isoString": "2020-02-03T04:05:06",
                     "arrayTime": Time(["2020-02-03T04:05:06", "2020-02-03T04:05:07"]), "garbage": "yesterday",
@@ -234,6 +235,10 @@ class Prop(PropBase):
     # ----------------------------------------------------------------- model
     def _req(self, cls, shape, dtype, safe, a):
         start = {"isoString": "scalarTime", "number": "garbage"}.get(a["start"], a["start"])
+        a = dict(a)
+        for k in ("rate", "cf", "bw"):
+            if a[k].startswith("nonScalar"):
+                a[k] = "nonScalar"
         sh = ",".join(str(s) for s in shape) if shape else "-"
         return (f"c16 new {cls} {sh} {CAN.get(dtype, dtype)} {int(safe)} {a['rate']} {start} {a['meta']} {a['cf']} {a['bw']} "
                 f"{a['align'] or 'EMPTY'} {a['pol'] or 'EMPTY'}")
